@@ -149,7 +149,7 @@ pub fn shrink_program(prog: &[ISpec], test: &mut dyn FnMut(&[ISpec]) -> bool, bu
     unwrap(&cur)
 }
 
-fn shrink_vec<T: Clone>(v: &[T], set: &mut dyn FnMut(Vec<T>) -> bool, budget: &mut usize) -> Vec<T> {
+pub fn shrink_vec<T: Clone>(v: &[T], set: &mut dyn FnMut(Vec<T>) -> bool, budget: &mut usize) -> Vec<T> {
     let mut cur = v.to_vec();
     if cur.is_empty() {
         return cur;
@@ -282,5 +282,190 @@ pub fn shrink_world(sc: &WorldSc, fails: &mut dyn FnMut(&WorldSc) -> bool) -> Wo
         best.prog = ProgSpec::Explicit(r.clone());
         best.program_text = render_program(&r);
     }
+    best
+}
+
+use crate::engines::queues::{QueueSc};
+use crate::engines::runloop::RunloopSc;
+
+pub fn shrink_queues(sc: &QueueSc, fails: &mut dyn FnMut(&QueueSc) -> bool) -> QueueSc {
+    let mut budget = 3000usize;
+    match sc {
+        QueueSc::Buffer(b) => {
+            let mut best = b.clone();
+            // cut the tail after the failing event first
+            let ops = best.ops.clone();
+            let mut lo = 0usize;
+            let mut hi = ops.len();
+            while lo < hi {
+                let mid = (lo + hi) / 2;
+                let mut c = best.clone();
+                c.ops = ops[..mid].to_vec();
+                if fails(&QueueSc::Buffer(c)) {
+                    hi = mid;
+                } else {
+                    lo = mid + 1;
+                }
+            }
+            best.ops = ops[..hi.min(ops.len())].to_vec();
+            if !fails(&QueueSc::Buffer(best.clone())) {
+                best.ops = ops;
+            }
+            let b2 = best.clone();
+            let cur = best.ops.clone();
+            best.ops = shrink_vec(
+                &cur,
+                &mut |v| {
+                    let mut c = b2.clone();
+                    c.ops = v;
+                    fails(&QueueSc::Buffer(c))
+                },
+                &mut budget,
+            );
+            for cap in 1..best.capacity {
+                let mut c = best.clone();
+                c.capacity = cap;
+                if fails(&QueueSc::Buffer(c.clone())) {
+                    best = c;
+                    break;
+                }
+            }
+            if best.messages {
+                let mut c = best.clone();
+                c.messages = false;
+                if fails(&QueueSc::Buffer(c.clone())) {
+                    best = c;
+                }
+            }
+            QueueSc::Buffer(best)
+        }
+        QueueSc::Io(io) => {
+            let mut best = io.clone();
+            {
+                let b2 = best.clone();
+                let cur = best.hosts.clone();
+                best.hosts = shrink_vec(
+                    &cur,
+                    &mut |v| {
+                        let mut c = b2.clone();
+                        c.hosts = v;
+                        fails(&QueueSc::Io(c))
+                    },
+                    &mut budget,
+                );
+            }
+            {
+                let b2 = best.clone();
+                let p = best.prog.clone();
+                let r = shrink_program(
+                    &p,
+                    &mut |cand| {
+                        let mut c = b2.clone();
+                        c.prog = cand.to_vec();
+                        fails(&QueueSc::Io(c))
+                    },
+                    &mut budget,
+                );
+                best.program_text = render_program(&r);
+                best.prog = r;
+            }
+            macro_rules! shrink_field {
+                ($field:ident) => {{
+                    let cur = best.state.$field.clone();
+                    let b2 = best.clone();
+                    let r = shrink_vec(
+                        &cur,
+                        &mut |v| {
+                            let mut c = b2.clone();
+                            c.state.$field = v;
+                            fails(&QueueSc::Io(c))
+                        },
+                        &mut budget,
+                    );
+                    best.state.$field = r;
+                }};
+            }
+            shrink_field!(bindings);
+            shrink_field!(input);
+            shrink_field!(output);
+            shrink_field!(code);
+            shrink_field!(names);
+            shrink_field!(bools);
+            shrink_field!(ints);
+            shrink_field!(floats);
+            shrink_field!(boolvecs);
+            shrink_field!(intvecs);
+            shrink_field!(floatvecs);
+            shrink_field!(indices);
+            QueueSc::Io(best)
+        }
+    }
+}
+
+pub fn shrink_runloop(sc: &RunloopSc, fails: &mut dyn FnMut(&RunloopSc) -> bool) -> RunloopSc {
+    let mut best = sc.clone();
+    let mut budget = 3000usize;
+    macro_rules! attempt {
+        ($mutate:expr) => {{
+            let mut cand = best.clone();
+            ($mutate)(&mut cand);
+            if cand != best && budget > 0 {
+                budget -= 1;
+                if fails(&cand) {
+                    best = cand;
+                }
+            }
+        }};
+    }
+    attempt!(|c: &mut RunloopSc| c.env.slow = false);
+    attempt!(|c: &mut RunloopSc| c.env.map_salt = 0);
+    attempt!(|c: &mut RunloopSc| c.env.p_spawn_fail = 0);
+    attempt!(|c: &mut RunloopSc| c.env.stalls.clear());
+    attempt!(|c: &mut RunloopSc| c.via_parser = false);
+    {
+        let b2 = best.clone();
+        let p = best.prog.clone();
+        let r = shrink_program(
+            &p,
+            &mut |cand| {
+                let mut c = b2.clone();
+                c.prog = cand.to_vec();
+                fails(&c)
+            },
+            &mut budget,
+        );
+        best.program_text = render_program(&r);
+        best.prog = r;
+    }
+    macro_rules! shrink_field {
+        ($field:ident) => {{
+            let cur = best.state.$field.clone();
+            let b2 = best.clone();
+            let r = shrink_vec(
+                &cur,
+                &mut |v| {
+                    let mut c = b2.clone();
+                    c.state.$field = v;
+                    fails(&c)
+                },
+                &mut budget,
+            );
+            best.state.$field = r;
+        }};
+    }
+    shrink_field!(bindings);
+    shrink_field!(input);
+    shrink_field!(output);
+    shrink_field!(exec);
+    shrink_field!(code);
+    shrink_field!(names);
+    shrink_field!(bools);
+    shrink_field!(ints);
+    shrink_field!(floats);
+    shrink_field!(boolvecs);
+    shrink_field!(intvecs);
+    shrink_field!(floatvecs);
+    shrink_field!(indices);
+    attempt!(|c: &mut RunloopSc| c.state.quote_name = false);
     best
 }
